@@ -11,6 +11,13 @@
 // A run is a pure function of its plan (JSON); the plan is a pure function of
 // (property, runseed, tier). See DESIGN.md §3.2, §3.5, §3.7, §4 (C16 C18 C19 C20).
 //
+// One translation unit, split for readability: this file holds the shared
+// machinery and the Harness; the generator/executor of each property is in
+// psv_hist_c20.inc, psv_hist_c16.inc, psv_hist_c19.inc, psv_hist_c18.inc.
+// Debugging aids: PSV_HIST_TRACE=<run index> prints that run's event log to
+// stderr in `run` mode; PSV_HIST_DEBUG=1 prints leaked blocks / learnt block sizes;
+// PSV_KEEP_STDERR=1 keeps what the C wrappers print.
+//
 // Conventions shared by the four properties
 //  * a *history* is plan["ops"]; every op is executed on the real objects and
 //    on the reference model (sim/model.h) and compared afterwards;
@@ -86,6 +93,34 @@ std::string sizes_str(const std::vector<size_t> &v, size_t max = 8) {
 	for (size_t i = 0; i < v.size() && i < max; i++) { if (i) s += ","; s += std::to_string(v[i]); }
 	if (v.size() > max) s += ",...(" + std::to_string(v.size()) + ")";
 	return s + "]";
+}
+
+// ---------------------------------------------------------------- deferred findings
+// A run reports one signature (the first). A few findings are frequent, leave
+// everything in a well-defined state and say "the API disagrees with the
+// property's wording" rather than "something broke" (write_key's return value
+// on overwrite, swap-style move assignment, the disk reader's replace
+// semantics in the C interface, the extent-less stacked table). They are logged
+// where they occur but handed to the run's verdict only if nothing else was
+// found, so that they cannot hide rarer findings later in the same history.
+struct Deferred { std::string sig, detail; };
+std::vector<Deferred> g_deferred;
+void defer_violation(RunCtx &ctx, const std::string &sig, const std::string &detail) {
+	std::string sg = sig;
+	for (char &c : sg) if (c == ' ' || c == '\n' || c == '\t') c = '_';
+	ctx.log.ev("DEFERRED %s", sg.c_str());
+	if (g_deferred.size() < 64) g_deferred.push_back(Deferred{sg, detail});
+}
+void flush_deferred(RunCtx &ctx) {
+	if (g_deferred.empty()) return;
+	bool have_own = ctx.violation && ctx.sig.compare(0, ctx.prop.size() + 1, ctx.prop + "|") == 0;
+	if (!have_own) {
+		// the first of the property being checked, else the first
+		const Deferred *pick = &g_deferred[0];
+		for (auto &d : g_deferred) if (d.sig.compare(0, ctx.prop.size() + 1, ctx.prop + "|") == 0) { pick = &d; break; }
+		ctx.violate(pick->sig, pick->detail);
+	}
+	g_deferred.clear();
 }
 
 // ---------------------------------------------------------------- guarded execution
@@ -312,6 +347,8 @@ bool learn_value_slack(Env &env, const std::vector<Box *> &boxes, Box &target) {
 		uint64_t n = 0;
 		for (size_t i = 0; i < want.size(); i++) { target.m.set_slack(want[i].second, (int)(got[i] - want[i].first)); if (got[i] != want[i].first) n++; }
 		if (n) env.ctx.count("probe:value_block_longer_than_string", (int64_t)n);
+		if (n && getenv("PSV_HIST_DEBUG")) fprintf(stderr, "SLACK actual %s rest %s extra %s\n", sizes_str(actual, 40).c_str(), sizes_str(rest, 40).c_str(), sizes_str(extra, 40).c_str());
+		if (n && getenv("PSV_HIST_DEBUG")) for (size_t i = 0; i < want.size(); i++) if (got[i] != want[i].first) fprintf(stderr, "SLACK run %lld key '%s' value '%s' block %zu\n", (long long)env.ctx.run, target.m.aux[want[i].second].first.c_str(), target.m.aux[want[i].second].second.c_str(), got[i]);
 		return true;
 	}
 	return false;
@@ -543,12 +580,14 @@ struct HistHarness : Harness {
 		const char *tr = getenv("PSV_HIST_TRACE");   // debugging aid: event log of one run index to stderr
 		bool dump = tr && ctx.run == atoll(tr);
 		if (dump) ctx.log.keep = true;
+		g_deferred.clear();
 		ctx.log.ev("run %s plan=%016llx", prop.c_str(), (unsigned long long)ph);
 		if (prop == "C20") exec_c20(plan, ctx, ph);
 		else if (prop == "C16") exec_c16(plan, ctx, ph);
 		else if (prop == "C19") exec_c19(plan, ctx, ph);
 		else if (prop == "C18") exec_c18(plan, ctx, ph);
 		else ctx.violate(prop + "|setup|plan|none|unknown-property", "plan names a property this harness does not serve");
+		flush_deferred(ctx);
 		if (dump) for (auto &l : ctx.log.lines) fprintf(stderr, "TRACE %s\n", l.c_str());
 		disk::reset();
 	}
